@@ -22,7 +22,8 @@ CONSTANTS Peers, Hashes,
           MaxPar,     \* holder.MaxParallelPulls()
           MaxPend,    \* maxPendingPushes
           Horizon,    \* bound on time (model runs only)
-          HeadCheck   \* TRUE: the loop re-validates the peeked head under the mutex (repaired code)
+          HeadCheck,  \* TRUE: the loop re-validates the peeked head under the mutex (repaired code)
+          MaxHold     \* how many announcers may be pre-empted at the cap evaluation at a time (per hash)
 
 None == -1
 
@@ -39,18 +40,20 @@ VARIABLES now,      \* current tick
           late,     \* [Hashes -> 0..2]: an announcing goroutine that sent its request but has not yet
                     \*   executed RegisterPull (concurrent callers of addPush): 1 = a further announcer,
                     \*   2 = the FIRST announcer of the item, which still holds the manager mutex
+          capw,     \* [Hashes -> Seq([p, c])]: further announcers that have taken their ticket c (the atomic
+                    \*   increment of the manager's counter) and are pre-empted before comparing it with the cap
           lab       \* label of the last step [ev, p, h] (for the property clauses and the export)
 
-vars == <<now, has, cnt, active, pend, pc, obj, out, pulls, regs, late, lab>>
+vars == <<now, has, cnt, active, pend, pc, obj, out, pulls, regs, late, capw, lab>>
 
 State == [now |-> now, has |-> has, cnt |-> cnt, active |-> active, pend |-> pend, pc |-> pc, obj |-> obj,
-          out |-> out, pulls |-> pulls, regs |-> regs, late |-> late]
+          out |-> out, pulls |-> pulls, regs |-> regs, late |-> late, capw |-> capw]
 
 NoObj == [p |-> None, h |-> None, t |-> None]
 
 InitState == [now |-> 0, has |-> {}, cnt |-> [h \in Hashes |-> 0], active |-> [h \in Hashes |-> None],
               pend |-> <<>>, pc |-> "idle", obj |-> NoObj, out |-> <<>>, pulls |-> [h \in Hashes |-> <<>>],
-              regs |-> [h \in Hashes |-> <<>>], late |-> [h \in Hashes |-> 0]]
+              regs |-> [h \in Hashes |-> <<>>], late |-> [h \in Hashes |-> 0], capw |-> [h \in Hashes |-> <<>>]]
 
 ---------------------------------------------------------------------------
 (* sortedPendingPushes.Add: insert before the first entry whose time is strictly later *)
@@ -72,18 +75,33 @@ RequestUnregistered(s, p, h) == [s EXCEPT !.out = Append(@, [p |-> p, h |-> h]),
                                           !.pulls[h] = Append(@, s.now),
                                           !.late[h] = IF s.cnt[h] = 1 THEN 2 ELSE 1]
 
+(* the part of addPush after the atomic increment returned ticket c *)
+Decide(s1, p, h, c) ==
+    IF c >= MaxPar THEN
+         \* AddPendingPush: stored only while an active pull exists, stamped with ITS time
+         IF h \in s1.has \/ Len(s1.pend) > MaxPend \/ s1.active[h] = None THEN s1
+         ELSE [s1 EXCEPT !.pend = InsertSorted(@, [p |-> p, h |-> h, t |-> s1.active[h]])]
+    ELSE Request(s1, p, h)
+
 (* manager.addPush *)
 DoAnnounce(s0, p, h) ==
     LET s == [s0 EXCEPT !.out = <<>>] IN
     IF h \in s.has THEN s                                   \* known item: ignored
     ELSE IF s.cnt[h] = 0 THEN Request([s EXCEPT !.cnt[h] = 1], p, h)     \* first announcer: immediately
-    ELSE LET c == s.cnt[h] + 1
-             s1 == [s EXCEPT !.cnt[h] = c] IN
-         IF c >= MaxPar THEN
-              \* AddPendingPush: stored only while an active pull exists, stamped with ITS time
-              IF h \in s1.has \/ Len(s1.pend) > MaxPend \/ s1.active[h] = None THEN s1
-              ELSE [s1 EXCEPT !.pend = InsertSorted(@, [p |-> p, h |-> h, t |-> s1.active[h]])]
-         ELSE Request(s1, p, h)
+    ELSE Decide([s EXCEPT !.cnt[h] = s.cnt[h] + 1], p, h, s.cnt[h] + 1)
+
+(* addPush by a goroutine that is pre-empted right after the atomic increment (its ticket), before *)
+(* the comparison with holder.MaxParallelPulls(); other announcers run in between                 *)
+DoAnnounceHold(s0, p, h) ==
+    LET s == [s0 EXCEPT !.out = <<>>] IN
+    IF h \in s.has \/ s.cnt[h] = 0 THEN DoAnnounce(s0, p, h)
+    ELSE [s EXCEPT !.cnt[h] = @ + 1, !.capw[h] = Append(@, [p |-> p, c |-> s.cnt[h] + 1])]
+
+WaiterIdx(s, p, h) == CHOOSE i \in 1..Len(s.capw[h]) : s.capw[h][i].p = p
+DoAnnounceResume(s0, p, h) ==
+    LET s == [s0 EXCEPT !.out = <<>>]
+        i == WaiterIdx(s, p, h)
+    IN Decide([s EXCEPT !.capw[h] = RemoveAt(@, i)], p, h, s.capw[h][i].c)
 
 (* manager.addPush by a goroutine that is pre-empted between makeRequest and RegisterPull; only *)
 (* differs from DoAnnounce on the immediate-request paths                                        *)
@@ -129,10 +147,11 @@ DoLoopWake(s0) == Finish([s0 EXCEPT !.out = <<>>], s0.obj)
 ---------------------------------------------------------------------------
 Install(s) == /\ now' = s.now /\ has' = s.has /\ cnt' = s.cnt /\ active' = s.active /\ pend' = s.pend
               /\ pc' = s.pc /\ obj' = s.obj /\ out' = s.out /\ pulls' = s.pulls /\ regs' = s.regs /\ late' = s.late
+              /\ capw' = s.capw
 
 Init == /\ now = 0 /\ has = {} /\ cnt = [h \in Hashes |-> 0] /\ active = [h \in Hashes |-> None]
          /\ pend = <<>> /\ pc = "idle" /\ obj = NoObj /\ out = <<>> /\ pulls = [h \in Hashes |-> <<>>]
-         /\ regs = [h \in Hashes |-> <<>>] /\ late = [h \in Hashes |-> 0]
+         /\ regs = [h \in Hashes |-> <<>>] /\ late = [h \in Hashes |-> 0] /\ capw = [h \in Hashes |-> <<>>]
          /\ lab = [ev |-> "Init", p |-> None, h |-> None]
 
 L(e, p, h) == lab' = [ev |-> e, p |-> p, h |-> h]
@@ -144,6 +163,11 @@ Announce(p, h) == MutexFree(h) /\ Install(DoAnnounce(State, p, h)) /\ L("Announc
 AnnounceSplit(p, h) == /\ \A x \in Hashes : late[x] = 0          \* at most one pre-empted announcer at a time
                        /\ h \notin has /\ cnt[h] + 1 < MaxPar /\ MutexFree(h)
                        /\ Install(DoAnnounceSplit(State, p, h)) /\ L("AnnounceSplit", p, h)
+AnnounceHold(p, h) == /\ h \notin has /\ cnt[h] >= 1 /\ Len(capw[h]) < MaxHold
+                      /\ \A i \in 1..Len(capw[h]) : capw[h][i].p # p
+                      /\ Install(DoAnnounceHold(State, p, h)) /\ L("AnnounceHold", p, h)
+AnnounceResume(p, h) == /\ \E i \in 1..Len(capw[h]) : capw[h][i].p = p
+                        /\ Install(DoAnnounceResume(State, p, h)) /\ L("AnnounceResume", p, h)
 RegisterLate(h) == late[h] > 0 /\ Install(DoRegisterLate(State, h)) /\ L("RegisterLate", None, h)
 Arrive(h)      == h \notin has /\ Install(DoArrive(State, h)) /\ L("Arrive", None, h)
 Tick           == now < Horizon /\ Install(DoTick(State)) /\ L("Tick", None, None)
@@ -152,6 +176,8 @@ LoopWake       == pc = "sleep" /\ now - obj.t >= D /\ Install(DoLoopWake(State))
 
 Next == \/ \E p \in Peers, h \in Hashes : Announce(p, h)
         \/ \E p \in Peers, h \in Hashes : AnnounceSplit(p, h)
+        \/ \E p \in Peers, h \in Hashes : AnnounceHold(p, h)
+        \/ \E p \in Peers, h \in Hashes : AnnounceResume(p, h)
         \/ \E h \in Hashes : RegisterLate(h)
         \/ \E h \in Hashes : Arrive(h)
         \/ Tick
@@ -179,13 +205,15 @@ NoLoss(pre, post) ==
             \/ pre.active[e[2]] = None
 
 \* once the item is stored no further requests for it are issued; announcements of known items are ignored
-NoPullAfterStored(pre, post) == \A i \in 1..Len(post.out) : post.out[i].h \notin pre.has
+\* (an announcement that passed its holder check before the item arrived and resumes afterwards is the one
+\* request the check-then-act of addPush cannot avoid: it is attributed to the announcement, not to the stored item)
+NoPullAfterStored(pre, post, ev) == \A i \in 1..Len(post.out) : post.out[i].h \notin pre.has \/ ev.ev = "AnnounceResume"
 KnownIgnored(pre, post, ev) ==
-    (ev.ev \in {"Announce", "AnnounceSplit"} /\ ev.h \in pre.has) => (post.out = <<>> /\ post.pend = pre.pend /\ post.active = pre.active)
+    (ev.ev \in {"Announce", "AnnounceSplit", "AnnounceHold"} /\ ev.h \in pre.has) => (post.out = <<>> /\ post.pend = pre.pend /\ post.active = pre.active)
 
 \* the first announcer of an unknown item is asked immediately
 FirstImmediate(pre, post, ev) ==
-    (ev.ev \in {"Announce", "AnnounceSplit"} /\ ev.h \notin pre.has /\ pre.cnt[ev.h] = 0) =>
+    (ev.ev \in {"Announce", "AnnounceSplit", "AnnounceHold"} /\ ev.h \notin pre.has /\ pre.cnt[ev.h] = 0) =>
         post.out = <<[p |-> ev.p, h |-> ev.h]>>
 
 \* a further announcer (one that had to wait in the pending list) is asked only after the delay has
@@ -206,7 +234,7 @@ ParallelCap(post) ==
 \* every request goes to a peer that announced the item
 OnlyAnnouncers(pre, post, ev) ==
     \A i \in 1..Len(post.out) :
-        \/ (ev.ev \in {"Announce", "AnnounceSplit"} /\ post.out[i] = [p |-> ev.p, h |-> ev.h])
+        \/ (ev.ev \in {"Announce", "AnnounceSplit", "AnnounceHold", "AnnounceResume"} /\ post.out[i] = [p |-> ev.p, h |-> ev.h])
         \/ <<post.out[i].p, post.out[i].h>> \in Ents(pre.pend) \/ post.out[i] = [p |-> pre.obj.p, h |-> pre.obj.h]
 
 Bounded(post) == Len(post.pend) <= MaxPend + 1
@@ -214,7 +242,7 @@ Bounded(post) == Len(post.pend) <= MaxPend + 1
 \* name of the first clause a step breaks ("" = none)
 Broken(pre, post, ev) ==
     IF ~NoLoss(pre, post) THEN "NoLoss"
-    ELSE IF ~NoPullAfterStored(pre, post) THEN "NoPullAfterStored"
+    ELSE IF ~NoPullAfterStored(pre, post, ev) THEN "NoPullAfterStored"
     ELSE IF ~KnownIgnored(pre, post, ev) THEN "KnownIgnored"
     ELSE IF ~FirstImmediate(pre, post, ev) THEN "FirstImmediate"
     ELSE IF ~DelayRespected(pre, post, ev) THEN "DelayRespected"
